@@ -161,7 +161,7 @@ impl GraphBlock {
             // disappear on the next pass and renumber the items after it
             GraphBlock::OrderedList(items) => items
                 .iter()
-                .map(|item| blocks_to_markdown_and(item, self.is_sparce_list(), options))
+                .map(|item| item_to_markdown(item, self.is_sparce_list(), options))
                 // (Markdown white space only: a non-breaking space is content)
                 .filter(|text| !text.trim_matches(|c: char| c.is_ascii_whitespace()).is_empty())
                 .enumerate()
@@ -172,7 +172,7 @@ impl GraphBlock {
                 .join(if self.is_sparce_list() { "\n" } else { "" }),
             GraphBlock::BulletList(items) => items
                 .iter()
-                .map(|item| blocks_to_markdown_and(item, self.is_sparce_list(), options))
+                .map(|item| item_to_markdown(item, self.is_sparce_list(), options))
                 .filter(|text| !text.trim_matches(|c: char| c.is_ascii_whitespace()).is_empty())
                 .map(|text| left_pad_and_prefix(&text, if alternate { '*' } else { '-' }))
                 .collect::<Vec<String>>()
@@ -479,6 +479,38 @@ fn protect_trailing_hashes(text: &str) -> String {
     } else {
         text.to_string()
     }
+}
+
+// An item whose own text begins like a block ("1. Introduction" - a numbered heading turned
+// into an item -, "- x", "> x") would be read back as a nested list or a quote and the marker
+// would be lost as text: it is escaped. An item that really starts with a nested list or a
+// quote starts with that block, not with text, and is written as it is.
+fn item_to_markdown(item: &Blocks, sparce: bool, options: &MarkdownOptions) -> String {
+    let text = blocks_to_markdown_and(item, sparce, options);
+    match item.iter().find(|block| !is_blank(block)) {
+        Some(GraphBlock::Plain(_)) | Some(GraphBlock::Para(_)) => protect_item_start(&text),
+        _ => text,
+    }
+}
+
+fn protect_item_start(text: &str) -> String {
+    let digits = text.chars().take_while(|c| c.is_ascii_digit()).count();
+    let after = |n: usize| text[n..].chars().next();
+    let ends_marker = |n: usize| matches!(after(n), None | Some(' ') | Some('\t') | Some('\n'));
+    if digits > 0
+        && digits < 10
+        && matches!(after(digits), Some('.') | Some(')'))
+        && ends_marker(digits + 1)
+    {
+        return format!("{}\\{}", &text[..digits], &text[digits..]);
+    }
+    if matches!(after(0), Some('-') | Some('+') | Some('*')) && ends_marker(1) {
+        return format!("\\{}", text);
+    }
+    if text.starts_with('>') {
+        return format!("\\{}", text);
+    }
+    text.to_string()
 }
 
 fn has_image(inlines: &GraphInlines) -> bool {
